@@ -59,6 +59,13 @@ TEXTS = {
              "real processor input/output through the model (one injective, length-preserving substitution table per instance; model output = real output).",
         design_ref="DESIGN.md 6/C17", note="Trusted: Coq kernel + vm_compute; no axioms; Go harness; SHA-256 abstracted; pdata container semantics modelled.",
         technique="Coq proof (injectivity of unbalanced Feistel for arbitrary F; map rebuild lemma) + cipher and processor differentials"),
+    "C08": dict(
+        text="Theorem: for every record state and batch the retry loop never exhausts its budget on dictionary events (after the fix of the reset rule) — the one panic whose "
+             "reachability is a real termination question; generated obligation: every explicit panic site of the current source is in a classified baseline (re-extracted with "
+             "go/ast on every run). Partial: the encoders are not modelled statement by statement; implicit panics are searched by running the real producer on random, degenerate "
+             "and boundary histories (result class per batch), which is also where the four defects repaired by fix: commits were exhibited.",
+        design_ref="DESIGN.md 6/C08", note="Trusted: Coq kernel + vm_compute; no axioms; go/ast extractor; Go harness. The field-discovery pass bound is an assumption validated by the runs.",
+        technique="Coq proof (termination measure of the retry loop) + generated panic-site obligation + result-class correspondence"),
 }
 
 NOT_APPLICABLE = []
